@@ -1,2 +1,116 @@
-(** Property C20 — placeholder while the proofs are being written. *)
-From JR Require Import JsonClass.
+(** Property C20 — serialisation customisation is honoured at every depth.
+    Statements only; each is closed by [exact] and followed by [Print Assumptions].
+
+    [hfun h obj] is what the handler with id [h] returns — an arbitrary function; [cf_handlers cfg] is
+    Config.serialize_handlers keyed by exact type; [reaches] (Model/JsonClass.v) lists the positions
+    dump traverses; [occurs o out] says that [o] sits in [out] below list items / dict values. *)
+From JR Require Import JsonClass JsonClassC20Proofs.
+
+(** a handler registered for exactly type(v) is used before any built-in handling; its return value
+    (or its exception) is dump's, verbatim — for primitives, containers and beans alike *)
+Theorem C20_handler_verbatim : forall hfun V E cfg sm ia ign v h,
+  handler_for cfg (type_of v) = Some h -> jc_dump hfun V E cfg sm ia ign v = hfun h v.
+Proof. exact handler_verbatim. Qed.
+Print Assumptions C20_handler_verbatim.
+
+(** ... at any nesting depth: wherever dump reaches y, the handler for type(y) produces what is emitted there *)
+Theorem C20_handler_every_depth : forall hfun V E cfg sm ia ign v y h out,
+  reaches E cfg sm ia ign v y -> handler_for cfg (type_of y) = Some h ->
+  jc_dump hfun V E cfg sm ia ign v = Ok out ->
+  exists o, hfun h y = Ok o /\ occurs o out.
+Proof. exact handler_every_depth. Qed.
+Print Assumptions C20_handler_every_depth.
+
+(** config, names and the ignore argument are forwarded on every recursive dump: whatever sits at a
+    traversed position is dumped by the same function with the same arguments *)
+Theorem C20_traversed_dumped : forall hfun V E cfg sm ia ign v y,
+  reaches E cfg sm ia ign v y ->
+  forall out, jc_dump hfun V E cfg sm ia ign v = Ok out ->
+  exists o, jc_dump hfun V E cfg sm ia ign y = Ok o /\ occurs o out.
+Proof. exact traversed_dumped. Qed.
+Print Assumptions C20_traversed_dumped.
+
+(** exact type only: the handler applied to an object of type t is an entry under t itself ... *)
+Theorem C20_exact_type_only : forall cfg t h,
+  handler_for cfg t = Some h -> In (t, Some h) (cf_handlers cfg).
+Proof. exact handler_exact_type. Qed.
+Print Assumptions C20_exact_type_only.
+
+(** ... and without such an entry no handler is applied, whatever is registered for other types
+    (base classes, int for a bool, ...) *)
+Theorem C20_no_entry_no_handler : forall cfg t,
+  (forall h, ~ In (t, Some h) (cf_handlers cfg)) -> handler_for cfg t = None.
+Proof. exact no_entry_no_handler. Qed.
+Print Assumptions C20_no_entry_no_handler.
+
+(** attributes named in the object's ignore list or in the ignore argument never appear in its dumped form *)
+Theorem C20_ignored_never_dumped : forall hfun V E cfg sm ia ign c fields d out n,
+  handler_for cfg (TClass c) = None -> find_class (e_ctab E) c = Some d ->
+  flookup sm fields = None -> mro_find (e_ctab E) c (ser_pred sm) = None ->
+  jc_dump hfun V E cfg sm ia ign (VInst c fields) = Ok out ->
+  n <> "__jsonclass__" ->
+  (forall ignl, ignore_list E ia ign c fields = Ok ignl -> name_ignored n ignl = true) ->
+  exists m, out = VDict m /\ dhas m n = false.
+Proof. exact ignored_never_dumped. Qed.
+Print Assumptions C20_ignored_never_dumped.
+
+Theorem C20_ignore_argument_never_dumped : forall hfun V E cfg sm ia ign c fields d out n,
+  handler_for cfg (TClass c) = None -> find_class (e_ctab E) c = Some d ->
+  flookup sm fields = None -> mro_find (e_ctab E) c (ser_pred sm) = None ->
+  jc_dump hfun V E cfg sm ia ign (VInst c fields) = Ok out ->
+  n <> "__jsonclass__" -> In (VStr n) ign ->
+  exists m, out = VDict m /\ dhas m n = false.
+Proof. exact ignore_argument_never_dumped. Qed.
+Print Assumptions C20_ignore_argument_never_dumped.
+
+(** fields of neither a supported nor a handled type are omitted, not a failure: every key of the
+    dumped form (other than "__jsonclass__") is a field whose value passed the type test, and only
+    those values are handed to dump *)
+Theorem C20_unsupported_omitted : forall hfun V E cfg sm ia ign c fields d out n y,
+  handler_for cfg (TClass c) = None -> find_class (e_ctab E) c = Some d ->
+  flookup sm fields = None -> mro_find (e_ctab E) c (ser_pred sm) = None ->
+  jc_dump hfun V E cfg sm ia ign (VInst c fields) = Ok out ->
+  n <> "__jsonclass__" ->
+  (exists m, out = VDict m /\ dget m n = Some y) ->
+  exists x, In (n, x) fields /\ known_type E cfg x = true /\ jc_dump hfun V E cfg sm ia ign x = Ok y.
+Proof. exact only_known_fields_dumped. Qed.
+Print Assumptions C20_unsupported_omitted.
+
+(** a field that passes the tests IS dumped, under its name *)
+Theorem C20_kept_field_emitted : forall hfun V E cfg sm ia ign c fields d ignl n x out,
+  handler_for cfg (TClass c) = None -> find_class (e_ctab E) c = Some d ->
+  flookup sm fields = None -> mro_find (e_ctab E) c (ser_pred sm) = None ->
+  ignore_list E ia ign c fields = Ok ignl ->
+  nodup_str (map fst fields) = true -> n <> "__jsonclass__" ->
+  In (n, x) fields -> field_kept E cfg ignl (n, x) = true ->
+  jc_dump hfun V E cfg sm ia ign (VInst c fields) = Ok out ->
+  exists o m, jc_dump hfun V E cfg sm ia ign x = Ok o /\ out = VDict m /\ dget m n = Some o.
+Proof. exact field_emitted. Qed.
+Print Assumptions C20_kept_field_emitted.
+
+(** the names consulted: the explicit argument when given and non-empty, the Config's otherwise ... *)
+Theorem C20_configured_names : forall cfg arg,
+  norm_name arg (cf_ser cfg) = match arg with Some s => if String.eqb s "" then cf_ser cfg else s | None => cf_ser cfg end.
+Proof. exact configured_names. Qed.
+Print Assumptions C20_configured_names.
+
+(** ... the method of exactly that name decides the form (its (params, attrs) verbatim) ... *)
+Theorem C20_method_consulted : forall hfun V E cfg sm ia ign c fields d ds,
+  handler_for cfg (TClass c) = None -> find_class (e_ctab E) c = Some d -> flookup sm fields = None ->
+  mro_find (e_ctab E) c (ser_pred sm) = Some ds ->
+  jc_dump hfun V E cfg sm ia ign (VInst c fields) =
+  do pa <- serialize_call ds fields;
+  Ok (descriptor_dict (VStr (dump_name d)) (fst pa) (map (fun kx => (VStr (fst kx), snd kx)) (snd pa))).
+Proof. exact method_consulted. Qed.
+Print Assumptions C20_method_consulted.
+
+Theorem C20_method_has_configured_name : forall E c sm ds,
+  mro_find (e_ctab E) c (ser_pred sm) = Some ds -> c_ser_name ds = sm /\ sm <> "".
+Proof. exact method_has_configured_name. Qed.
+Print Assumptions C20_method_has_configured_name.
+
+(** ... and the ignore list read is the attribute of exactly the configured name, no other spelling *)
+Theorem C20_ignore_attribute_has_configured_name : forall E c ia d,
+  mro_find (e_ctab E) c (ign_pred ia) = Some d -> exists x, c_ign d = Some (ia, x).
+Proof. exact ignore_class_has_configured_name. Qed.
+Print Assumptions C20_ignore_attribute_has_configured_name.
